@@ -586,6 +586,25 @@ fn gen_vsign(ctx: &mut Ctx) {
             ctx.monitor(stored == want, "C13-state-machine", &format!("VSL 3 M <configure {}x{} with block {}, one complete page of {} bytes>", w, h, hex_of_bytes(block), total), &format!("stored: {}", &stored[..stored.len().min(60)]));
         }
     }
+    // every configuration block of the alphabet -- also the ones that configure no size at all (zero width, zero height,
+    // unknown family, all FF) -- followed by a pixel transfer of exactly 16, 32 and 48 bytes: only a sign with a size stores pages
+    for (bi, (block, _)) in config_blocks().iter().enumerate() {
+        for nchunks in [1usize, 2, 3] {
+            let mut msgs = vec!["RO.3.RCF".to_string(), format!("SD.0.{}", block), "DC.1".to_string(), "QS.3".to_string(), "RO.3.RPX".to_string()];
+            for k in 0..nchunks {
+                msgs.push(format!("SD.{}.{}", k * 16, chunk(16, bi + k)));
+            }
+            msgs.push(format!("DC.{}", nchunks));
+            for m in ["QS.3", "PC.3", "QS.3", "RO.3.SLP", "QS.3", "QS.3"] {
+                msgs.push(m.to_string());
+            }
+            for style in ["M", "A"] {
+                let line = format!("VSL 3 {} {}", style, msgs.join(" "));
+                let res = ctx.case(line.clone(), true, "every-config-block-then-small-transfer");
+                ctx.monitor(!res.contains("PANIC"), "C12-no-panic", &line, &res[..res.len().min(200)]);
+            }
+        }
+    }
     // narrow custom geometries (widths 1..=12, heights 1, 7, 8, 9) with page numbers of one, two and three digits: a complete
     // page, the dump of it at PixelsComplete, and a flip
     for w in 1u32..=12 {
@@ -1965,6 +1984,20 @@ fn gen_c09(ctx: &mut Ctx) {
             pages.push(small_page(99, 65516 / 2, 16, &mut rng));
             items = pages.iter().map(|p| bytes_of_hex(p.split('.').nth(2).unwrap())).collect();
         }
+        if k == 18 {
+            // an item longer than the 16-bit offset space: 65 584 bytes = 4 099 chunks, the last three at offsets that have
+            // wrapped round to 0, 16, 32
+            let p = small_page(9, 32790, 16, &mut rng);
+            items = vec![bytes_of_hex(p.split('.').nth(2).unwrap())];
+            pages = vec![p];
+        }
+        if k == 22 && cfg!(debug_assertions) {
+            // one chunk more than the 16-bit chunk counter can count: 65 536 chunks (16 items of 4 096 chunks).  The counter
+            // overflows: a panic where overflow is checked (this build); where it is not, the count wraps, which is
+            // another case list's business
+            pages = (0..16).map(|j| small_page(j as u8, 65532 / 2, 16, &mut rng)).collect();
+            items = pages.iter().map(|p| bytes_of_hex(p.split('.').nth(2).unwrap())).collect();
+        }
         if k == 2 {
             // one chunk short of the limit, followed by a second item (offset restart after a long item)
             let p = small_page(7, 65516 / 2, 16, &mut rng);
@@ -2028,7 +2061,7 @@ fn gen_c09(ctx: &mut Ctx) {
             continue;
         }
         // retry pattern: how many failure reports before success (0..3), plus an occasional deviation
-        let fails = if k == 14 { 0 } else { fails_override.unwrap_or(rng.below(4)) };
+        let fails = if k == 14 || k == 18 || k == 22 { 0 } else { fails_override.unwrap_or(rng.below(4)) };
         // one interactive run: the bus decides each cooperative reply when it is asked for it
         let script: Vec<String> = {
             let mut r2 = Rng::new(rng.next(), 909);
@@ -2076,7 +2109,10 @@ fn gen_c09(ctx: &mut Ctx) {
         // successful call; with three failure reports the call gives up with a protocol error
         {
             let want_done = fails < 3;
-            let good = if want_done { outcome.starts_with("DONE") } else { outcome == "PROTO" };
+            // (beyond the 16-bit chunk counter -- 65 536 chunks or more in one attempt -- the property promises nothing but
+            // that the call does not claim success with a count that is not the number of chunks sent)
+            let total_chunks: usize = items.iter().map(|it| (it.len() + 15) / 16).sum();
+            let good = if total_chunks >= 65536 { !outcome.starts_with("DONE") || !cfg!(debug_assertions) } else if want_done { outcome.starts_with("DONE") } else { outcome == "PROTO" };
             let short = if line.len() > 600 { format!("{}...", &line[..600]) } else { line.clone() };
             ctx.monitor(good, "C09-transfer-shape", &short, &format!("a cooperative sign ({} failure reports) but the call ended {} after {} messages", fails, outcome, trace.len()));
         }
